@@ -486,10 +486,13 @@ Fixpoint chk_mon (te : tenv) (m : monexpr) : bool :=
       chk_mon te l && chk_mon te r && match r with MonLit _ _ | MonVar _ => true | _ => false end
   end.
 Definition q_in_unit (q : Q) : bool := Qle_bool 0 q && Qle_bool q 1.
+(* a literal portion reaches the compiler as a normalised big.Rat (ParsePortionSpecific): the AST carries the
+   reduced fraction (the text printer may print any equal fraction) *)
+Definition q_reduced (q : Q) : bool := Z.gcd (Qnum q) (Zpos (Qden q)) =? 1.
 Definition chk_val (te : tenv) (v : valexpr) : bool :=
   match v with
   | VEAcc s => valid_address s | VEAsset s => lexer_asset s && valid_asset s | VENum n => 0 <=? n | VEStr _ => true
-  | VEPortion q => q_in_unit q | VEMon m => chk_mon te m | VEVar x => declared te x
+  | VEPortion q => q_in_unit q && q_reduced q | VEMon m => chk_mon te m | VEVar x => declared te x
   end.
 
 Definition accexpr_eqb (a b : accexpr) : bool :=
@@ -542,7 +545,7 @@ Definition n_remaining (ps : list portionexpr) : nat :=
   List.length (filter (fun p => match p with PRemaining => true | _ => false end) ps).
 Definition chk_portions (te : tenv) (ps : list portionexpr) : bool :=
   match ps with [] => false | _ =>
-    forallb (fun p => match p with PConst q => q_in_unit q | PVar x => has_ty te x TPortion | PRemaining => true end) ps
+    forallb (fun p => match p with PConst q => q_in_unit q && q_reduced q | PVar x => has_ty te x TPortion | PRemaining => true end) ps
     && Nat.leb (n_remaining ps) 1
     && (let t := const_total ps in
         let hasrem := Nat.eqb (n_remaining ps) 1 in
